@@ -263,7 +263,7 @@ func runRows(w *world.World, rows []row, enc *json.Encoder) error {
 // ---- part B
 
 type ingVal struct {
-	Acme  bool   `json:"acme"`
+	Acme  string `json:"acme"` // no | signer (cert-signer: acme) | ann (kubernetes.io/tls-acme: "true")
 	Sec   string `json:"sec"`
 	Hosts string `json:"hosts"`
 }
@@ -278,12 +278,22 @@ type step struct {
 	Full   bool            `json:"full"`
 	Leader bool            `json:"leader"`
 	Ing    json.RawMessage `json:"ing"`
+	Ing0   json.RawMessage `json:"ing0"` // the ingresses before the late changes
+	// TrackAnn: --acme-track-tls-annotation (one value per history)
+	TrackAnn bool `json:"trackann"`
+	// Fail: the reload of this step's update fails once; the controller's own retry follows
+	Fail bool `json:"fail"`
+	// Late: changes that arrive after the failed update and before the retry
+	Late []change `json:"late"`
 }
 
 func ingress(slot int, v ingVal) client.Object {
 	ann := map[string]string{"ssl-redirect": "false"}
-	if v.Acme {
+	switch v.Acme {
+	case "signer":
 		ann["cert-signer"] = "acme"
+	case "ann":
+		ann["kubernetes.io/tls-acme"] = "true"
 	}
 	var rules []kobj.Rule
 	for _, h := range names[v.Hosts] {
@@ -293,7 +303,8 @@ func ingress(slot int, v ingVal) client.Object {
 }
 
 func runHist(base, id string, steps []step) ([]map[string]interface{}, error) {
-	w, err := world.New(base, nil, pipeline.Options{WatchWithoutClass: true, ConfigMapName: "ingress/cfg", AcmeServer: true})
+	w, err := world.New(base, nil, pipeline.Options{WatchWithoutClass: true, ConfigMapName: "ingress/cfg", AcmeServer: true,
+		AcmeTrackTLSAnn: len(steps) > 0 && steps[0].TrackAnn})
 	if err != nil {
 		return nil, err
 	}
@@ -331,26 +342,53 @@ func runHist(base, id string, steps []step) ([]map[string]interface{}, error) {
 	}
 	q.take()
 	res := []map[string]interface{}{{"ev": "Reset", "id": id}}
+	var pendingLate []change
 	for i, st := range steps {
 		if err := waitLeader(st.Leader); err != nil {
 			return nil, err
 		}
-		for _, c := range st.Ops {
+		for _, c := range append(pendingLate, st.Ops...) {
 			if c.V.Sec == "none" {
-				if _, err := p.Delete(ingress(c.Slot, ingVal{Sec: "s1", Hosts: "a"})); err != nil {
+				if _, err := p.Delete(ingress(c.Slot, ingVal{Acme: "no", Sec: "s1", Hosts: "a"})); err != nil {
 					return nil, err
 				}
 			} else if _, _, err := p.Apply(ingress(c.Slot, c.V)); err != nil {
 				return nil, err
 			}
 		}
+		if st.Fail {
+			w.Sim.SetPlan(nil, 1, 0)
+		}
+		var rerr error
 		if st.Full {
-			if _, err := p.Reconcile(true); err != nil {
-				return nil, err
+			_, rerr = p.Reconcile(true)
+		}
+		if _, err := p.ReconcilePending(false); err != nil && rerr == nil {
+			rerr = err
+		}
+		if rerr != nil {
+			if !st.Fail {
+				return nil, rerr
+			}
+			// changes keep arriving while the controller waits for its retry
+			for _, c := range st.Late {
+				if c.V.Sec == "none" {
+					if _, err := p.Delete(ingress(c.Slot, ingVal{Acme: "no", Sec: "s1", Hosts: "a"})); err != nil {
+						return nil, err
+					}
+				} else if _, _, err := p.Apply(ingress(c.Slot, c.V)); err != nil {
+					return nil, err
+				}
+			}
+			// what the controller does after --reload-retry: the same queue item again, with the batch collected meanwhile
+			if _, err := p.Reconcile(st.Full); err != nil {
+				return nil, fmt.Errorf("%s step %d: the retry failed too: %w", id, i, err)
 			}
 		}
-		if _, err := p.ReconcilePending(false); err != nil {
-			return nil, err
+		w.Sim.SetPlan(nil, 0, 0)
+		pendingLate = nil
+		if rerr == nil {
+			pendingLate = st.Late // the update did not fail: these changes belong to the next batch
 		}
 		if p.Svc.VerifIsLeader() != st.Leader {
 			return nil, fmt.Errorf("%s step %d: leadership changed during the step", id, i)
@@ -358,7 +396,7 @@ func runHist(base, id string, steps []step) ([]map[string]interface{}, error) {
 		adds, dels := q.take()
 		sortOps(adds)
 		sortOps(dels)
-		res = append(res, map[string]interface{}{"ev": "Step", "id": id, "step": i, "st": st, "adds": adds, "dels": dels})
+		res = append(res, map[string]interface{}{"ev": "Step", "id": id, "step": i, "st": st, "adds": adds, "dels": dels, "failed": rerr != nil})
 	}
 	return res, nil
 }
